@@ -16,7 +16,7 @@ Extraction "svmodel.ml"
   exec_script exec_script2 run_docs run_exit run_outcomes stream_ok
   utf8_decode utf8_encode is_other has_unprintable escaped_printable escaped_expectation decode escaped_matches trim_newlines printable
   split_mod extract parse render_exp matches_content lookup_kind kind_names expression_as_escaped
-  m_equal m_noeol m_escaped glob_match full print_top print_user cram_glob_re
+  m_equal m_noeol m_escaped escaped_body glob_match full print_top print_user cram_glob_re
   parse_cram str_lines render_cram wf_cram cram_tests_of
   parse_md md_tokens render_md render_elem wf_md md_tests_of extract_title extract_code_block_start
   yaml_quoted yaml_scalar yaml_unquote read_scalar
